@@ -1062,14 +1062,20 @@ spec fn assignable_ok(vars: Seq<TypeVariable>, e: Expression) -> bool {
 trait Help: Sized {
     spec fn h_is_ok(&self) -> bool;
     spec fn h_same(&self, other: &Self) -> bool;
+    spec fn h_nonempty(&self) -> bool;
+    // the real help()/help_no_span() panic ("Cannot help on this error since the error is empty") when the
+    // error list is empty: that is the precondition here, so every call site proves a non-empty list
     fn help(self, typechecker: &TypeChecker, span: Span, message: String) -> (r: Self)
-        ensures r.h_is_ok() == self.h_is_ok(), self.h_is_ok() ==> r.h_same(&self);
+        requires self.h_is_ok() || self.h_nonempty(),
+        ensures r.h_is_ok() == self.h_is_ok(), self.h_is_ok() ==> r.h_same(&self), !self.h_is_ok() ==> r.h_nonempty();
     fn help_no_span(self, message: String) -> (r: Self)
-        ensures r.h_is_ok() == self.h_is_ok(), self.h_is_ok() ==> r.h_same(&self);
+        requires self.h_is_ok() || self.h_nonempty(),
+        ensures r.h_is_ok() == self.h_is_ok(), self.h_is_ok() ==> r.h_same(&self), !self.h_is_ok() ==> r.h_nonempty();
 }
 impl<T> Help for TypeResult<T> {
     spec fn h_is_ok(&self) -> bool { self is Ok }
     spec fn h_same(&self, other: &Self) -> bool { *self == *other }
+    spec fn h_nonempty(&self) -> bool { self is Err && self->Err_0.len() >= 1 }
     #[verifier::external_body]
     fn help(self, typechecker: &TypeChecker, span: Span, message: String) -> (r: Self) { unimplemented!() }
     #[verifier::external_body]
@@ -1292,6 +1298,7 @@ fn opaque_error(span: Span) -> (r: Error) ensures r.span() == span { unimplement
 //@   ret r
 //@   spec
     ensures r == Ok::<RetNValue, Vec<Error>>((None, value)), //# C07 no_ret.spec.aux1
+            r is Err ==> r->Err_0.len() >= 1, //# C07 no_ret.an_error_result_is_never_an_empty_list
 //@   endspec
 //@ end
 //@ fn sylt-compiler/src/typechecker.rs with_ret
@@ -1299,6 +1306,7 @@ fn opaque_error(span: Span) -> (r: Error) ensures r.span() == span { unimplement
 //@   ret r
 //@   spec
     ensures r == Ok::<RetNValue, Vec<Error>>((ret, value)), //# C07 with_ret.spec.aux1
+            r is Err ==> r->Err_0.len() >= 1, //# C07 with_ret.an_error_result_is_never_an_empty_list
 //@   endspec
 //@ end
 
@@ -2388,6 +2396,7 @@ impl TypeChecker {
             decl_clash(old(self).types@, old(self).variables@, *expression) ==> r is Err, //# C05 expression.unknown_variant_and_instance_of_a_non_blob_or_externblob_are_rejected
             r is Ok && *expression is Read ==> shape_eq(ty_of(old(self).types@, old(self).variables@[expression->Read_var as int].ty), ty_of(final(self).types@, r->Ok_0.1)), //# C03,C05 expression.reading_a_variable_gives_its_type_or_an_instance_of_it
             read_clash(old(self).types@, old(self).variables@, *expression) ==> r is Err, //# C03,C05 expression.a_use_that_contradicts_the_known_type_of_a_variable_is_rejected
+            r is Err ==> r->Err_0.len() >= 1, //# C07 expression.an_error_result_is_never_an_empty_list
 //@   endspec
 //@   ghost entry
         hide(wf_forest); hide(ids_closed); hide(TypeChecker::vars_valid);
@@ -2551,6 +2560,7 @@ impl TypeChecker {
         requires old(self).inv2(), //# C07 outer_statement.pre.inv
             os_ok(*statement, old(self).variables@.len() as int), //# C07 outer_statement.pre.top_level_statement_is_a_declaration_or_definition
         ensures final(self).inv2(), final(self).grows(old(self)), //# C02,C07 outer_statement.keeps_invariant
+            r is Err ==> r->Err_0.len() >= 1, //# C07 outer_statement.an_error_result_is_never_an_empty_list
 //@   endspec
 //@   ghost entry
         broadcast use vstd::std_specs::hash::group_hash_axioms;
@@ -2618,6 +2628,7 @@ impl TypeChecker {
             start_var is Some ==> (start_var->Some_0.id as int) < old(self).variables@.len(), //# C07 solve.pre.start_id_in_range
         ensures
             start_var is None ==> r is Err, //# C05,C07 solve.program_without_start_is_rejected
+            r is Err ==> r->Err_0.len() >= 1, //# C07 solve.an_error_result_is_never_an_empty_list
 //@   endspec
 //@   loop 1 binder it
             invariant self.inv2(), self.grows(old(self)), //# C07 solve.loop1.aux1
@@ -2640,6 +2651,7 @@ impl TypeChecker {
             rt_ok(*ty, old(self).variables@.len() as int), //# C07 resolve_type.pre.type_is_translatable
         ensures final(self).inv2(), final(self).grows(old(self)), r is Ok ==> final(self).valid(r->Ok_0), //# C02,C07 resolve_type.keeps_invariant
             r is Ok && prim_head(*ty) is Some ==> head(ty_of(final(self).types@, r->Ok_0)) == prim_head(*ty)->Some_0, //# C03 resolve_type.a_primitive_type_annotation_gives_that_type
+            r is Err ==> r->Err_0.len() >= 1, //# C07 resolve_type.an_error_result_is_never_an_empty_list
 //@   endspec
 //@   ghost entry
         broadcast use vstd::std_specs::hash::group_hash_axioms;
@@ -2672,10 +2684,14 @@ impl TypeChecker {
 //@   endrewrite
 //@   inner check_constraint_arity
 //@     ret r
+//@     spec
+        ensures r is Err ==> r->Err_0.len() >= 1, //# C07 check_constraint_arity.an_error_result_is_never_an_empty_list
+//@     endspec
 //@   endinner
 //@   spec
         requires old(self).inv2(), old(self).valid(var), //# C07 resolve_constraint.pre.id_in_range
         ensures final(self).inv2(), final(self).grows(old(self)), //# C02,C07 resolve_constraint.keeps_invariant
+            r is Err ==> r->Err_0.len() >= 1, //# C07 resolve_constraint.an_error_result_is_never_an_empty_list
 //@   endspec
 //@ end
 //@ fn sylt-compiler/src/typechecker.rs inner_resolve_type
@@ -2736,6 +2752,7 @@ impl TypeChecker {
         ensures final(self).inv2(), final(self).grows(old(self)), r is Ok ==> final(self).valid(r->Ok_0), //# C02,C07 inner_resolve_type.keeps_invariant
             sn_ok(final(seen)@, final(self).types@.len() as int), //# C07 inner_resolve_type.generics_are_nodes
             r is Ok && prim_head(*ty) is Some ==> head(ty_of(final(self).types@, r->Ok_0)) == prim_head(*ty)->Some_0, //# C03 inner_resolve_type.a_primitive_type_annotation_gives_that_type
+            r is Err ==> r->Err_0.len() >= 1, //# C07 inner_resolve_type.an_error_result_is_never_an_empty_list
 //@   endspec
 //@   ghost entry
         let ghost n = self.variables@.len() as int;
@@ -2833,6 +2850,7 @@ impl TypeChecker {
         requires old(self).inv2(), old(self).valid(a), old(self).valid(b), //# C07 div_res.pre.ids_in_range
         ensures final(self).inv2(), final(self).grows(old(self)), //# C02,C07 div_res.keeps_invariant
             is_num(ty_of(old(self).types@, a)) && !(ty_of(old(self).types@, b) is Unknown) && !(ty_of(old(self).types@, b) is Float) ==> r is Err, //# C03 div_res.number_divided_gives_a_float
+            r is Err ==> r->Err_0.len() >= 1, //# C07 div_res.an_error_result_is_never_an_empty_list
 //@   endspec
 //@   ghost entry
         proof { lemma_heads_refl(self.types@); }
@@ -2871,6 +2889,7 @@ impl TypeChecker {
         ensures final(self).inv2(), final(self).grows(old(self)), //# C02,C07 equ.keeps_invariant
             head_clash(ty_of(old(self).types@, a), ty_of(old(self).types@, b))
                 && rep0(old(self).types@, a.0 as int) != rep0(old(self).types@, b.0 as int) ==> r is Err, //# C03 equ.clashing_types_rejected
+            r is Err ==> r->Err_0.len() >= 1, //# C07 equ.an_error_result_is_never_an_empty_list
 //@   endspec
 //@ end
 //@ fn sylt-compiler/src/typechecker.rs check_constraints
@@ -2916,6 +2935,7 @@ impl TypeChecker {
         requires old(self).inv2(), old(self).valid(a), //# C07 check_constraints.pre.id_in_range
         ensures final(self).inv2(), final(self).grows(old(self)), //# C02,C07 check_constraints.keeps_invariant
             forall|c: Constraint| #[trigger] cons_of(old(self).types@, a.0 as int).contains(c) && con_violated(old(self).types@, a, c) ==> r is Err, //# C03,C05 check_constraints.a_recorded_constraint_that_the_known_types_violate_is_rejected
+            r is Err ==> r->Err_0.len() >= 1, //# C07 check_constraints.an_error_result_is_never_an_empty_list
 //@   endspec
 //@   ghost entry
         let ghost ts0 = self.types@;
@@ -3059,6 +3079,7 @@ impl TypeChecker {
             r is Ok && !(ty_of(old(self).types@, a) is Unknown) && !(ty_of(old(self).types@, b) is Unknown)
                 && !old(seen)@.contains((TyID(rep0(old(self).types@, a.0 as int) as usize), TyID(rep0(old(self).types@, b.0 as int) as usize)))
                 ==> shape_eq(ty_of(old(self).types@, a), ty_of(old(self).types@, b)), //# C03,C05 sub_unify.two_known_types_that_unify_have_one_shape
+            r is Err ==> r->Err_0.len() >= 1, //# C07 sub_unify.an_error_result_is_never_an_empty_list
 //@   endspec
 //@   ghost entry
         let ghost ts0 = self.types@; let ghost a0 = a; let ghost b0 = b;
@@ -3177,6 +3198,7 @@ impl TypeChecker {
             r is Ok ==> rep0(final(self).types@, r->Ok_0.0 as int) == rep0(final(self).types@, a.0 as int), //# C02 unify.returns_a_member_of_the_class
             r is Ok && !(ty_of(old(self).types@, a) is Unknown) && !(ty_of(old(self).types@, b) is Unknown)
                 ==> shape_eq(ty_of(old(self).types@, a), ty_of(old(self).types@, b)), //# C03,C05 unify.two_known_types_that_unify_have_one_shape
+            r is Err ==> r->Err_0.len() >= 1, //# C07 unify.an_error_result_is_never_an_empty_list
 //@   endspec
 //@   ghost entry
         proof { axiom_tyid_pair_key_order(); }
@@ -3192,6 +3214,7 @@ impl TypeChecker {
         ensures final(self).inv2(), final(self).grows(old(self)), //# C07 unify_option.spec.aux2
             r is Ok && r->Ok_0 is Some ==> final(self).valid(r->Ok_0->Some_0), //# C07 unify_option.spec.aux3
             r is Ok ==> (r->Ok_0 is None <==> a is None && b is None), //# C03 unify_option.none_iff_both_none
+            r is Err ==> r->Err_0.len() >= 1, //# C07 unify_option.an_error_result_is_never_an_empty_list
 //@   endspec
 //@ end
 
@@ -3206,6 +3229,7 @@ impl TypeChecker {
             final(self).types@ == old(self).types@ && final(self).variables == old(self).variables, //# C04 can_assign.no_state_change
             r is Ok <==> assignable_ok(old(self).variables@, *assignable), //# C04 can_assign.ok_iff_assignable_table
             r is Err ==> r->Err_0.len() >= 1 && r->Err_0[0].span() == (if *assignable is Read { assignable->Read_span } else { span }), //# C04 can_assign.error_span
+            r is Err ==> r->Err_0.len() >= 1, //# C07 can_assign.an_error_result_is_never_an_empty_list
 //@   endspec
 //@ end
 
@@ -3226,6 +3250,7 @@ impl TypeChecker {
             ty_of(old(self).types@, a) is Unknown ==> r is Ok, //# C05 constant_index.unknown_deferred
             !(ty_of(old(self).types@, a) is Unknown) && !(ty_of(old(self).types@, a) is Tuple) ==> r is Err, //# C05 constant_index.non_tuple_rejected
             r is Err && !(ty_of(old(self).types@, a) is Tuple) ==> r->Err_0.len() >= 1 && r->Err_0[0].span() == span, //# C07 constant_index.spec.aux3
+            r is Err ==> r->Err_0.len() >= 1, //# C07 constant_index.an_error_result_is_never_an_empty_list
 //@   endspec
 //@   ghost entry
         proof { lemma_view_members(self.types@, a); }
@@ -3246,6 +3271,7 @@ impl TypeChecker {
             r is Ok ==> ty_of(final(self).types@, r->Ok_0.0) is Function, //# C03 type_from_function.builds_function_type
             r is Ok ==> ty_of(final(self).types@, r->Ok_0.0)->Function_0.len() == params@.len(), //# C03 type_from_function.arity_is_param_count
             r is Ok ==> (ty_of(final(self).types@, r->Ok_0.0)->Function_2 is Pure <==> pure) && !(ty_of(final(self).types@, r->Ok_0.0)->Function_2 is Undefined), //# C04 type_from_function.purity_from_literal
+            r is Err ==> r->Err_0.len() >= 1, //# C07 type_from_function.an_error_result_is_never_an_empty_list
 //@   endspec
 //@   ghost entry
         broadcast use vstd::std_specs::hash::group_hash_axioms;
@@ -3284,6 +3310,7 @@ impl TypeChecker {
             decl_lit_clash(*statement) ==> r is Err, //# C03 definition.a_literal_that_contradicts_the_declared_primitive_type_is_rejected
             r is Ok ==> s_pur(old(self).variables@, *statement, ctx.inside_pure), //# C04 definition.pure_ok
             r is Ok ==> s_brk(*statement, ctx.inside_loop), //# C05 definition.break_ok
+            r is Err ==> r->Err_0.len() >= 1, //# C07 definition.an_error_result_is_never_an_empty_list
 //@   endspec
 //@   ghost entry
         proof { reveal_with_fuel(s_below, 2); reveal_with_fuel(s_nodecl, 2); reveal_with_fuel(s_shape, 2); }
@@ -3320,6 +3347,7 @@ impl TypeChecker {
             *statement is Assignment && !assignable_ok(old(self).variables@, statement->Assignment_target) ==> r is Err, //# C04 statement.assignment_to_constant_rejected
             r is Ok ==> s_brk(*statement, ctx.inside_loop), //# C05 statement.break_ok
             r is Ok ==> s_pur(old(self).variables@, *statement, ctx.inside_pure), //# C04 statement.pure_ok
+            r is Err ==> r->Err_0.len() >= 1, //# C07 statement.an_error_result_is_never_an_empty_list
 //@   endspec
 //@   ghost entry
         proof { reveal_with_fuel(s_below, 2); reveal_with_fuel(s_nodecl, 2); reveal_with_fuel(s_shape, 2); }
@@ -3340,6 +3368,7 @@ impl TypeChecker {
             r is Ok && r->Ok_0.1 is Some ==> final(self).valid(r->Ok_0.1->Some_0), //# C07 expression_block.spec.aux4
             r is Ok ==> all_brk(statements@, ctx.inside_loop), //# C05 expression_block.break_ok
             r is Ok ==> all_pur(old(self).variables@, statements@, ctx.inside_pure), //# C04 expression_block.pure_ok
+            r is Err ==> r->Err_0.len() >= 1, //# C07 expression_block.an_error_result_is_never_an_empty_list
 //@   endspec
 //@   loop 1 binder it
             invariant
